@@ -69,7 +69,8 @@ class C05(Spec):
             "and at a later hop of a redirect chain, with timeout_seconds = 1. The fetch must end in an error (or, where the bytes "
             "received already form a complete object, that exact object) within hops * 2 * timeout + 0.7 s, and the harness process "
             "must survive. ONE LEVEL UP: an intact post / activity / actor whose author, audience, performer, target or outbox sits behind each kind "
-            "of fault is opened through pub.FetchUserInput: the item is built within the bound, with an error item in that place. non-trivial = a fault was injected (cut, stall, reset or trickle).")
+            "of fault is opened through pub.FetchUserInput: the item is built within the bound, with an error item in that place; a LATER PAGE of a paged "
+            "collection behind a fault: the listing ends with an error item and can be asked again. non-trivial = a fault was injected (cut, stall, reset or trickle).")
     assumptions = ["PARTIAL: wall-clock is observed, not proved - the model bounds the number of connection attempts (hops_bounded) and "
                    "assumes each blocking step of Go's net/tls returns by its deadline; scheduler latency, kernel socket behaviour and "
                    "TLS record boundaries are outside the model",
@@ -225,6 +226,30 @@ class C05(Spec):
                     w.serve(u, resp, 0)
                 cases.append(item_fault(idx, name, sf))
                 idx += 1
+        # a LATER PAGE of a paged collection behind a fault: the listing delivers what it has, an error item for the page, and ENDS
+        # (asking it again must not crash); Paging.remote_requests on the bytes received
+        import c10
+        made = 0
+        while made < (30 if tier == "quick" else 600):
+            w = c10.SPEC.remote_world(rng, base)
+            if len(w.entries) < 2 or w.meta.get("shape") not in ("linear", "mixed"):
+                continue
+            k = rng.randrange(1, len(w.entries))
+            ui_, respb, _ = w.entries[k]
+            how = rng.choice(["cut", "cut", "reset", "garbage", "stall"])
+            if how == "cut":
+                w.entries[k] = (ui_, respb[:rng.randrange(len(respb))], 0)
+            elif how == "reset":
+                w.entries[k] = (ui_, respb[:rng.randrange(len(respb))], 2)
+            elif how == "stall":
+                w.entries[k] = (ui_, respb[:rng.randrange(len(respb))], 1)
+            else:
+                w.entries[k] = (ui_, b"HTTP/1.1 200 OK\r\nContent-Type: application/activity+json\r\n\r\n{\"type\": \"Coll", 0)
+            # ask for more than the collection holds, several times: the requests after the failed page are the point
+            w.ops = [("paging", w.ops[0][1], [rng.randint(2, 6) for _ in range(5)])]
+            w.meta.update({"fault": "page-" + how, "hops": 2 * len(w.entries) + 2})
+            cases.append(w.case())
+            made += 1
         b = Batch("c05", cases, config="[network]\ntimeout_seconds = %d\n" % T, env={"VERIF_SIM_PORT_BASE": str(base), "VERIF_CASE_TIMEOUT": "8", "VERIF_MAX_HANGS": "4"}, timeout=600,
                   correspondence="jtp.Get under faults == Jtp.get on the bytes received")
         b.parallel = False
